@@ -56,6 +56,20 @@ func (checker *TimestampChecker) IsUpToDate(t *ast.Task) (bool, error) {
 			}
 			f.Close()
 		}
+		// Without the timestamp file there is no record of a successful run:
+		// the task never ran, or its last attempt failed (see OnError)
+		return false, nil
+	}
+
+	// Like the checksum method: every generates entry must still exist
+	for _, g := range t.Generates {
+		if g.Negate {
+			continue
+		}
+		matches, err := glob(t.Dir, g.Glob)
+		if err != nil || len(matches) == 0 {
+			return false, nil
+		}
 	}
 
 	taskTime := time.Now()
@@ -142,7 +156,15 @@ func anyFileNewerThan(files []string, givenTime time.Time) (bool, error) {
 }
 
 // OnError implements the Checker interface
-func (*TimestampChecker) OnError(t *ast.Task) error {
+func (checker *TimestampChecker) OnError(t *ast.Task) error {
+	if len(t.Sources) == 0 {
+		return nil
+	}
+	// Forget the timestamp of this attempt, so that the next run can not
+	// take the task for up to date
+	if err := os.Remove(checker.timestampFilePath(t)); err != nil && !os.IsNotExist(err) {
+		return err
+	}
 	return nil
 }
 
